@@ -222,7 +222,54 @@ def c03(ctx):
                            "hang = no return within the per-case deadline (1.5 s quick / 3 s thorough)"])
 
 
+# ---------------------------------------------------------------- C02
+
+def c02(ctx):
+    rnd = ctx.rng
+    cases = []
+    nsched = 0
+    maxall = 10 if ctx.quick else 12
+    per_fmt = 400 if ctx.quick else 2500
+    entries = ["write", "write0", "reader", "readerE"]
+    for fmt in ("cborl", "ubjson", "json"):
+        rows = GENS[fmt](ctx, "lang", incomplete=True)
+        # prefer documents whose tokens have multi-byte payloads (they can be cut in the middle)
+        rows = [r for r in rows if len(r["doc"]) >= 3]
+        rnd.shuffle(rows)
+        rows.sort(key=lambda r: (r["class"] != "complete", -min(len(r["doc"]), maxall)))
+        valid = [r for r in rows if r["class"] == "complete"][: per_fmt * 3 // 4]
+        other = [r for r in rows if r["class"] != "complete"]
+        rnd.shuffle(other)
+        for r in valid + other[: per_fmt // 4]:
+            doc = r["doc"]
+            n = len(doc)
+            if n <= maxall:
+                sub = dict(mode="all", entries=entries)
+                nsched += (2 ** (n - 1) - 1) * len(entries) + 1
+            else:
+                cl = [[i] for i in range(1, n)] + [[i, j] for i in range(1, n) for j in range(i + 1, n)][: 400]
+                cl += [sorted(rnd.sample(range(1, n), rnd.randint(3, min(n - 1, 8)))) for _ in range(40 if ctx.quick else 200)]
+                cl.append(list(range(1, n)))
+                sub = dict(mode="list", cutlists=cl, entries=entries)
+                nsched += len(cl) * len(entries) + 1
+            cases.append(case("C02", "sched", fmt, doc=doc, sub=sub, origin="%s %s" % (r["class"], r["why"])))
+    number(cases)
+    tf, st = core.run_harness(ctx, cases, deadline=20000)
+    failed, n = core.tlc_validate(ctx, "TraceCodec", tf)
+    return run.decide(
+        ctx, "TraceCodec", cases, tf, failed, n, level_note="",
+        rule="documents come from the TLC language generators (valid ones with multi-byte tokens first, plus invalid/unsupported/"
+             "truncated ones); for documents up to %d bytes EVERY subset of cut positions is run (exhaustive), longer ones with all "
+             "single cuts, double cuts and seeded random cut sets; each schedule is run through Write*+end, Write* with empty writes "
+             "interleaved, and ParseReader with short reads (with and without data+EOF) on a fresh parser and compared with the "
+             "whole-buffer Parse. Distinct = distinct documents; non-trivial = at least 4 bytes." % maxall,
+        nontrivial=lambda c: len(c["doc"]) >= 4,
+        extra_cov=dict(schedules_executed=nsched),
+        assumptions=TCB + ["observations of the schedules of one document are grouped by equality in the harness; every distinct observation is compared with the baseline by the specification"])
+
+
 PROPS = {
+    "C02": c02,
     "C03": c03,
     "C04": c04,
     "C06": c06,
